@@ -68,6 +68,20 @@ fn check_cut(id: usize) {
         crate::assume(false);
     }
 }
+/// Contract mode, robust form: every `RwLock<T>` whose payload has this size is cut (the id-based
+/// table lookup is not constant-folded by CBMC for heap-allocated locks, so symex kept exploring
+/// the allocator behind the layout lock).  rawdb registers `size_of::<Layout>()`.
+pub static mut CUT_SIZE: usize = usize::MAX;
+pub fn set_cut_size(n: usize) {
+    unsafe { CUT_SIZE = n };
+}
+#[inline(always)]
+fn check_cut_size(n: usize) {
+    if n == unsafe { CUT_SIZE } {
+        assert!(false, "VERIF: bound exceeded: allocator (layout lock) reached in contract mode");
+        crate::assume(false);
+    }
+}
 pub fn set_class(id: usize, class: u8) {
     table().class[id] = class;
 }
@@ -201,11 +215,13 @@ impl<T> RwLock<T> {
 impl<T: ?Sized> RwLock<T> {
     #[inline]
     pub fn read(&self) -> RwLockReadGuard<'_, T> {
+        check_cut_size(core::mem::size_of_val(unsafe { &*self.data.get() }));
         self.raw.acquire_shared();
         RwLockReadGuard { lock: self }
     }
     #[inline]
     pub fn write(&self) -> RwLockWriteGuard<'_, T> {
+        check_cut_size(core::mem::size_of_val(unsafe { &*self.data.get() }));
         self.raw.acquire_excl();
         RwLockWriteGuard { lock: self }
     }
